@@ -1,21 +1,30 @@
 """C07 — load balancing: one branch per frame, ordered duplicate-free rejoin."""
-from .. import protocol, pipeline
+from .. import protocol, pipeline, netbal
 
 ID = 'C07'
-PROP_FILES = ['C07', 'SendBalLemmas', 'SendBalInv', 'SendPubLemmas', 'C04OnePublish']
-MODULES = ['OFModel.Zmq.Receiver', 'OFModel.Zmq.Sender', 'OFModel.Gen.Facts']
+PROP_FILES = ['C07', 'SendBalLemmas', 'SendBalInv', 'SendPubLemmas', 'C04OnePublish', 'NetBalBase', 'NetBalRecv', 'NetBalSend', 'NetBalInv', 'C07NetBal']
+MODULES = ['OFModel.Zmq.Receiver', 'OFModel.Zmq.Sender', 'OFModel.Zmq.Net', 'OFModel.Zmq.NetBal', 'OFModel.Gen.Facts']
 RULE = ('balanced receivers (2-4 synchronised sources, disjoint or clashing worker ids, bal flags 1/2, random interleavings, several ready sources per poll, '
         'time-outs between any two messages) and balanced senders (2-3 bound outputs, 1-4 clients spread over them, duplicated/stale/ahead requests, evictions); '
         'oracle: every returned set from one source under one id, ids strictly increasing; every publish on exactly one output; bal-output-not-ready (sendfeed.publish_needs_request): a balanced publish '
         'never goes to an output one of whose tracked synchronised clients has not asked since the last publish there - proved as C07_publish_needs_all_asked / C07_send0_publish_needs_all_asked '
         '(OFProps/C04OnePublish.lean: out_do_send of an output <=> all its tracked clients asked or are ephemeral, C07_do_send_iff_all_asked), every call compared with the real class by send.run.  '
-        'non-trivial = set returned / block published')
-ASSUMPTIONS = ['libzmq replaced by the in-process fake', 'balanced publish: "all synchronised clients of the chosen output asked" holds for every state of every run (C07_publish_needs_all_asked_run); "at least one client of that output asked" (C07_publish_some_asked) only if no CLOSE is taken between the decision and send_maybe (kernel-evaluated witness, same behaviour of the real class: the block goes to an output nobody is tracked on), and that client may be an ephemeral one', 'completeness of the rejoined stream is not claimed by the property (late results of slow workers are dropped)']
-TRUSTED = ['transcriptions OFModel/Zmq/Receiver.lean and Sender.lean, compared call-by-call with the real classes']
+        'NETWORK level (netbal.py, OFModel/Zmq/NetBal.lean, driver op netb.run): splitter S (outs_balance, b = 2-4 bound outputs) -> workers W_1..W_b (relays on one output each, any process function) '
+        '-> rejoin J (srcs_balance), REAL MQ objects on the fake pyzmq, schedules flow / loose / chaos / one slow worker / one idle worker (with eviction) / slow rejoin, low-latency receivers in a third of the trials; '
+        'compared event by event with OF.NetBal.step; oracles on the real objects: netbal-two-branches, netbal-foreign-id, netbal-worker-id, netbal-order, netbal-duplicate, netbal-mixed '
+        '(= C07_netbal_one_branch, C07_netbal_worker_relays_ids / _sublist, C07_netbal_rejoin, C07_netbal_no_frame_twice of OFProps/C07NetBal.lean, proved for every restart-free schedule); every run replays the '
+        'kernel-evaluated witnesses exSched (two workers of different speeds, J handed ids from both, id 1 dropped) and exRestart (splitter crash: id 1 on two outputs) and negative controls of every oracle; '
+        '15 % of the trials contain restarts (compared with the model, no oracle).  '
+        'non-trivial = set returned / block published / set handed to J')
+ASSUMPTIONS = ['libzmq replaced by the in-process fake', 'balanced publish: "all synchronised clients of the chosen output asked" holds for every state of every run (C07_publish_needs_all_asked_run); "at least one client of that output asked" (C07_publish_some_asked) only if no CLOSE is taken between the decision and send_maybe (kernel-evaluated witness, same behaviour of the real class: the block goes to an output nobody is tracked on), and that client may be an ephemeral one', 'completeness of the rejoined stream is not claimed by the property (late results of slow workers are dropped)',
+               'network level (OF.NetBal): one consumer per output of the splitter, all-topics synchronised subscriptions, no ephemeral listeners, theorems for restart-free schedules (the model and the tie have restarts; NEGATIVE witness exRestart), immediate loss-free FIFO delivery']
+TRUSTED = ['transcriptions OFModel/Zmq/Receiver.lean and Sender.lean, compared call-by-call with the real classes',
+           'network glue OFModel/Zmq/NetBal.lean (routing per output, MQ state hand-over of Net.lean), compared event by event with real MQ objects (netbal.py)']
 
 
 def run(ctx):
     n = 8000 if ctx.thorough else (3000 if ctx.escalate else 700)
     protocol.recv_campaign(ctx, 'C07', n, ['bal'])
     protocol.send_campaign(ctx, 'C07', n, ['bal', 'bal', 'adv'])
+    netbal.campaign(ctx, 3000 if ctx.thorough else (400 if ctx.escalate else 60))       # splitter -> workers -> rejoin: real MQ objects vs OF.NetBal (netb.run)
     if not ctx.replay: pipeline.campaign_balance(ctx, 200 if ctx.thorough else 25)
